@@ -234,6 +234,17 @@ theorem eval_embed (p : TokPos) (env : Bytes → Option SV) (t : Tree) :
 
 /-! ### operator spellings and symbol lexing (tables regenerated from lexer.go) -/
 
+/-- **and / or short-circuit, whatever stands on the right**: once the left operand of `and` is
+    false (of `or`: true) the result is decided and the right operand — any expression, also one
+    that would fail — is not evaluated: the state is the one the left operand left. -/
+theorem and_or_short_circuit (fuel : Nat) (a c : Expr) (p : TokPos) (σ σ' : ES) (v : V)
+    (h : (eval T cfg g fuel a).run σ = .ok v σ') :
+    (v.v.isTrue = false → (eval T cfg g (fuel + 1) (.bin .and a c p)).run σ = .ok (mkV (.bool false)) σ') ∧
+    (v.v.isTrue = true → (eval T cfg g (fuel + 1) (.bin .or a c p)).run σ = .ok (mkV (.bool true)) σ') := by
+  constructor <;> intro hv
+  · rw [eval, run_bind_ok h]; simp [hv, EStateM.run, pure, EStateM.pure]
+  · rw [eval, run_bind_ok h]; simp [hv, EStateM.run, pure, EStateM.pure]
+
 /-- every symbol that is a proper prefix of another symbol comes later in the
     table: first-match lexing is longest-match lexing (`<=` is never read as `<` `=`). -/
 theorem gen_symbols_longest_first :
